@@ -548,7 +548,10 @@ type PkgContracts struct {
 	Imports map[string]string // alias -> package path, for assumed files
 }
 
+type GhostVar struct{ Name, Type, Pkg string }
+
 type ContractDB struct {
+	Ghosts []GhostVar
 	Pkgs    map[string]*PkgContracts // by package path
 	Funcs   map[string]*FuncContract // all, by key
 	Specs   map[string]*SpecFunc     // global namespace
@@ -668,6 +671,13 @@ func (db *ContractDB) parseFile(pkgPath, file, src string) error {
 			pc.Opaque[name] = sortName
 		case "sort":
 			pc.Sorts = append(pc.Sorts, rest)
+		case "ghost":
+			// ghost <name> <type>
+			parts := strings.Fields(rest)
+			if len(parts) != 2 {
+				return fail(fmt.Errorf("ghost <name> <type>"))
+			}
+			db.Ghosts = append(db.Ghosts, GhostVar{Name: parts[0], Type: parts[1], Pkg: pkgPath})
 		case "func":
 			curT = nil
 			key := rest
@@ -934,6 +944,9 @@ func parseAssign(s string) (AssignSpec, error) {
 		as.Kind = "nothing"
 	case s == "all":
 		as.Kind = "all"
+	case strings.HasPrefix(s, "ghost "):
+		as.Kind = "ghost"
+		as.Heap = strings.TrimSpace(s[6:])
 	case strings.HasPrefix(s, "heap "):
 		as.Kind = "heap"
 		as.Heap = strings.TrimSpace(s[5:])
